@@ -209,7 +209,7 @@ fn on_events_body<const M: usize>(nev: usize, kind: u8, idcase: usize) {
     let addressed = k == 4 || k == 8 || k == 9;
     let expect_steps = if nev == 0 { 0 } else if addressed { if id < M { 1 } else { 0 } } else { M };
     assert!(aa_calls() == expect_steps, "C20: the events reach the framework exactly as the Rust API would deliver them (type and machine id unchanged, none dropped)");
-    assert!(n <= M, "C20: the count written never exceeds maybenot_num_machines");
+    assert!(n <= M, "C20/C04: the count written never exceeds maybenot_num_machines (at most one action per machine)");
     let outs: [MaybenotAction; 4] = [unsafe { out[0].assume_init() }, unsafe { out[1].assume_init() }, unsafe { out[2].assume_init() }, unsafe { out[3].assume_init() }];
     assert!(is_canary(&outs[0]) && is_canary(&outs[M + 1]), "C20: nothing is written outside the num_machines output slots");
     // the actions, in machine order and field for field, are those the framework returned
@@ -244,7 +244,7 @@ fn on_events_body<const M: usize>(nev: usize, kind: u8, idcase: usize) {
         }
         mi += 1;
     }
-    assert!(k_out == n, "C20: the count written equals the number of actions the framework returned (also for an empty batch)");
+    assert!(k_out == n, "C20/C04: the count written equals the number of actions the framework returned (also for an empty batch)");
     kani::cover!(n == M && M > 0, "every machine returned an action");
     kani::cover!(n == 0 && nev == 1, "no action returned for an event");
     core::mem::forget(mf);
